@@ -40,8 +40,9 @@ def draw(rng):
     return k, n, d
 
 
-def run_worker(ctx, stage, reqs):
-    """the requests through harness/drivers/timeconv_worker.py; returns (events, number of inputs that killed the worker)"""
+def run_worker(ctx, stage, reqs, bg=False, tag=""):
+    """the requests through harness/drivers/timeconv_worker.py; returns (events, number of inputs that killed the worker)
+    bg: a recording goes on in another thread of the worker meanwhile"""
     import json
     import os
     import subprocess
@@ -49,14 +50,15 @@ def run_worker(ctx, stage, reqs):
 
     from ..core import VERIF
 
-    fin, fout = os.path.join(ctx.work, "c03_in.txt"), os.path.join(ctx.work, "c03_out.ndjson")
+    fin, fout = os.path.join(ctx.work, "c03_in%s.txt" % tag), os.path.join(ctx.work, "c03_out%s.ndjson" % tag)
     with open(fin, "w") as fh:
         for r in reqs:
             fh.write(" ".join(str(x) for x in r) + "\n")
     open(fout, "w").close()
     skip, crashes, evs = 0, 0, []
     while skip < len(reqs):
-        p = subprocess.run([sys.executable, os.path.join(VERIF, "harness", "drivers", "timeconv_worker.py"), stage, fin, fout, str(skip), VERIF],
+        p = subprocess.run([sys.executable, os.path.join(VERIF, "harness", "drivers", "timeconv_worker.py"), stage, fin, fout, str(skip), VERIF]
+                           + (["bg"] if bg else []),
                            stdout=subprocess.DEVNULL, stderr=subprocess.PIPE)
         with open(fout) as fh:
             lines = fh.read().splitlines()
@@ -122,11 +124,18 @@ def run(ctx):
             continue
         reqs.append(("ceil", sec, ps2, n, d))
     evs, crashes = run_worker(ctx, st, reqs)
+    # (d) the same conversions while a recording goes on in another thread of the process (the calendar step must not share
+    # state with the writer's naming of subdirectories)
+    breqs = [("conv",) + draw(rng) for _ in range(ctx.pick(40000, 200000))]
+    bevs, bcr = run_worker(ctx, st, breqs, bg=True, tag="_bg")
+    evs += bevs
+    crashes += bcr
     per = 400
     scen = [dict(name="batch%d" % i, events=evs[i:i + per]) for i in range(0, len(evs), per)]
     ctx.evaluations = len(evs)
     ctx.extra.update(
         small_scope_records=nsmall, random_conv_records=nconv - nsmall, ceil_records=len(reqs) - nconv, inputs_that_killed_the_worker=crashes,
+        conversions_beside_a_recording_thread=len(bevs),
         rule="complete small scope k<%d, n<%d, d<%d through the real C functions and get_unix_time, plus random draws biased to "
              "k mod n in {0,1,n-1}, k near 2^63 / year 9999, n near 2^32, d up to 10^9 with n*d<2^64, and ceil on timestamps 1-999 ps "
              "off the sample grid; every record is decided by TLC with exact limb arithmetic" % (K, N, D))
